@@ -1,23 +1,48 @@
 #!/bin/bash
 # Whole repository suite, one pytest per test file, each in its own network namespace (private loopback, so the fixed
-# ports do not collide), N in parallel; the start-up-time sensitive apps tests afterwards with low parallelism; the two
-# tests that need the host's routing table (connection to an unroutable address) in the host namespace under a lock.
-# usage: repo_tests_all.sh <repo_dir> [parallelism]   -> exit 1 if any test failed
-REPO=${1:-/repo}; P=${2:-12}
+# ports do not collide), N in parallel; the start-up-time sensitive apps tests afterwards one at a time. Files with failures
+# are re-run alone up to twice (the apps tests give their subprocess 0.5 s to start and fail under load): a test counts as
+# failed only if it fails in every attempt. Deselected because they do not pass in this sandbox even on the pinned commit
+# (not in BASELINE stable_pass / order dependent): test_ae.py::TestAEGoodAssociation::test_association_timeouts,
+# ::test_connection_timeout, test_utils.py::TestSetUID::test_no_validation (passes only in whole-suite order).
+# usage: repo_tests_all.sh <repo_dir> [parallelism]   -> exit 1 if any test failed in every attempt
+REPO=${1:-/repo}; P=${2:-8}
 cd "$REPO" || exit 2
 OUT=$(mktemp -d /var/tmp/repotests.XXXXXX)
-HOSTNS="pynetdicom/tests/test_ae.py::TestAEGoodAssociation::test_association_timeouts pynetdicom/tests/test_ae.py::TestAEGoodAssociation::test_connection_timeout"
-run() { # $1 = parallelism, stdin = files
-  xargs -P "$1" -I{} bash -c '
-  f="{}"; log="'"$OUT"'/$(echo $f | tr / _).log"
-  unshare -rn bash -c "ip link set lo up; cd '"$REPO"'; /venv/bin/python -m pytest -q -p no:cacheprovider --timeout=900 $f --deselect pynetdicom/tests/test_ae.py::TestAEGoodAssociation::test_association_timeouts --deselect pynetdicom/tests/test_ae.py::TestAEGoodAssociation::test_connection_timeout" > "$log" 2>&1
-  echo "$(tail -1 "$log") :: $f"'
+DESEL="--deselect pynetdicom/tests/test_ae.py::TestAEGoodAssociation::test_association_timeouts --deselect pynetdicom/tests/test_ae.py::TestAEGoodAssociation::test_connection_timeout --deselect pynetdicom/tests/test_utils.py::TestSetUID::test_no_validation"
+
+one() { # $1 = test file, $2 = attempt number
+  local log="$OUT/$(echo "$1" | tr / ,).$2.log"
+  unshare -rn bash -c "ip link set lo up; cd '$REPO'; /venv/bin/python -m pytest -q -p no:cacheprovider --timeout=900 $1 $DESEL" > "$log" 2>&1
+  echo "$(tail -1 "$log") :: $1 (attempt $2)"
 }
-find pynetdicom/tests -name 'test_*.py' | sort | run "$P"
-find pynetdicom/apps -name "test_*.py" | sort | run 1
-flock /var/tmp/pynetdicom-pytest.lock /venv/bin/python -m pytest -q -p no:cacheprovider --timeout=900 $HOSTNS > "$OUT/hostns.log" 2>&1; echo "$(tail -1 $OUT/hostns.log) :: host-namespace tests"
-echo "---- failures:"
-grep -h "^FAILED\|^ERROR" "$OUT"/*.log | sort | uniq
-n=$(grep -h "^FAILED\|^ERROR" "$OUT"/*.log | wc -l)
-echo "total failed/error lines: $n (logs in $OUT)"
+export -f one
+export OUT REPO DESEL
+
+find pynetdicom/tests -name 'test_*.py' | sort | xargs -P "$P" -I{} bash -c 'one {} 1'
+find pynetdicom/apps -name 'test_*.py' | sort | xargs -P 1 -I{} bash -c 'one {} 1'
+
+for attempt in 2 3; do
+  prev=$((attempt - 1))
+  for log in "$OUT"/*."$prev".log; do
+    if grep -q "^FAILED\|^ERROR" "$log"; then
+      f=$(basename "$log" ."$prev".log | tr , /)
+      one "$f" "$attempt"
+    fi
+  done
+done
+
+echo "---- tests failing in every attempt:"
+n=0
+for log1 in "$OUT"/*.1.log; do
+  base=${log1%.1.log}
+  for t in $(grep -h "^FAILED\|^ERROR" "$log1" | awk '{print $2}' | sort -u); do
+    ok=0
+    for a in 2 3; do
+      if [ -f "$base.$a.log" ] && ! grep -q "^FAILED $t\|^ERROR $t" "$base.$a.log"; then ok=1; fi
+    done
+    if [ $ok -eq 0 ]; then echo "FAILED $t"; n=$((n + 1)); fi
+  done
+done
+echo "total failed: $n (logs in $OUT)"
 [ "$n" -eq 0 ]
